@@ -302,6 +302,8 @@ type e2eSession struct {
 	closed bool
 	// monitor: the first completed result per series id of this session
 	results map[uint64]string
+	// monitor: the largest RespondedTo carried by a proposal of this session that completed
+	ackDelivered uint64
 }
 
 func runE2ECase(line string, obs *vh.LineWriter, st *vh.Stats) {
@@ -420,6 +422,12 @@ func runE2ECase(line string, obs *vh.LineWriter, st *vh.Stats) {
 			case "ok":
 				rs := fmt.Sprintf("%d %s", res.Value, vh.Hex(res.Data))
 				obs.Printf("%s %d %s ok %s\n", id, k, f[0], rs)
+				if f[0] == "STALE" && series <= s.ackDelivered {
+					viol("e2e acknowledged duplicate: session %s series %d was acknowledged (a later proposal carrying RespondedTo %d completed) but its late duplicate completed with %s", arg(1), series, s.ackDelivered, rs)
+				}
+				if f[0] == "P" && cs.RespondedTo > s.ackDelivered {
+					s.ackDelivered = cs.RespondedTo
+				}
 				if first, seen := s.results[series]; seen {
 					if first != rs {
 						viol("e2e retry result: session %s series %d completed with %s, its first completion returned %s", arg(1), series, rs, first)
@@ -474,7 +482,29 @@ func runE2ECase(line string, obs *vh.LineWriter, st *vh.Stats) {
 				viol("e2e: linearizable read failed: %v", err)
 				continue
 			}
-			obs.Printf("%s %d READ %d\n", id, k, v)
+			tcap, table, _ := dragonboat.VerifC05SessionDump(host(), e2eShard)
+			obs.Printf("%s %d READ %d T %s\n", id, k, v, showSessions(tcap, table))
+			// acknowledged responses are released on the replica: nothing at or below the
+			// acknowledgement a completed proposal delivered stays cached
+			for name, es := range sessions {
+				if es.closed {
+					continue
+				}
+				for _, sv := range table {
+					if sv.ClientID != es.cs.ClientID {
+						continue
+					}
+					kept := 0
+					for key := range sv.History {
+						if key <= es.ackDelivered {
+							kept++
+						}
+					}
+					if sv.RespondedUpTo < es.ackDelivered || kept > 0 {
+						viol("e2e acknowledgement: session %s delivered RespondedTo %d with a completed proposal, host %d still has RespondedUpTo %d and %d cached response(s) at or below it", name, es.ackDelivered, cur, sv.RespondedUpTo, kept)
+					}
+				}
+			}
 			if v != expected {
 				viol("e2e at-most-once: the user state on host %d is %d; with every completed proposal applied exactly once it would be %d", cur, v, expected)
 			}
